@@ -727,6 +727,40 @@ fn judge_string(tera: &Tera, s: &str, acc: &mut Acc, sample: bool) {
             );
         }
         acc.case(nonempty, "literal-operand:compared");
+
+        // ---- the block spelling: `{% filter F %}..{% endfilter %}` applies F to what its body
+        // renders - the string printed from the context, and (where the string can stand as
+        // template text) the string itself, the EMPTY string included: `json_encode` of nothing is
+        // `""`, not nothing (seeded change C20-10 compiled a filter section with an empty body to
+        // no code at all)
+        let sect = |body: &str| {
+            format!(
+                "{{% filter urlencode_strict %}}{body}{{% endfilter %}}|{{% filter b64_encode %}}{body}{{% endfilter %}}|{{% filter json_encode %}}{body}{{% endfilter %}}"
+            )
+        };
+        let src_sect = sect("{{ s }}");
+        let c = engine::render_str(tera, &src_sect, &ctx, false);
+        if c != b {
+            acc.violation(
+                "filter-section-differs-from-expression",
+                format!("`{src_sect}` gives {}, `{src_ctx}` gives {}", c.show(), b.show()),
+                || json!({"template": src_sect, "s": s}),
+            );
+        }
+        acc.case(nonempty, "filter-section:compared");
+        let as_text = !s.contains("{{") && !s.contains("{%") && !s.contains("{#") && !s.ends_with('{');
+        if as_text {
+            let src_text = sect(s);
+            let d = engine::render_str(tera, &src_text, &ctx, false);
+            if d != b {
+                acc.violation(
+                    "filter-section-differs-from-expression",
+                    format!("`{src_text}` gives {}, `{src_ctx}` with s = {s:?} gives {}", d.show(), b.show()),
+                    || json!({"template": src_text, "s": s}),
+                );
+            }
+            acc.case(true, if s.is_empty() { "filter-section-over-text:empty-body" } else { "filter-section-over-text:compared" });
+        }
     }
 
     // ---- base64
